@@ -154,8 +154,72 @@ func knownDeviationForm(r *Rng, names []string) string {
 	}
 }
 
+// keywordMisspellings enumerates, exhaustively, every keyword that contains '-' with each of its
+// dashes replaced by another character, in the positions of an expression where the keyword or a
+// name can stand (the generated DFA used to accept some of these as the keyword itself).
+func keywordMisspellings() []string {
+	kws := []string{"ancestor-or-self", "descendant-or-self", "following-sibling", "preceding-sibling", "processing-instruction"}
+	repl := []string{".", "_", "0", "9", "x", "#", "--", ""}
+	forms := []string{"%s::*", "//b/%s::node()", "%s", "//%s", "%s()", "@%s", "%s:x", "p:%s", "count(//*[%s::b])"}
+	var out []string
+	for _, kw := range kws {
+		for i, c := range kw {
+			if c != '-' {
+				continue
+			}
+			for _, rp := range repl {
+				bad := kw[:i] + rp + kw[i+1:]
+				for _, f := range forms {
+					out = append(out, fmt.Sprintf(f, bad))
+				}
+			}
+		}
+		for _, f := range forms {
+			out = append(out, fmt.Sprintf(f, kw))
+		}
+	}
+	return out
+}
+
+// lookalikes: names that a careless text-level shortcut could take for numbers or keywords
+// (strconv.ParseFloat reads "inf", "Infinity", "nan", "1e1", "0x10", "1_0"), directly after a sign.
+func lookalikes() []string {
+	names := []string{"inf", "Infinity", "infinity", "nan", "NaN", "e1", "true", "x0", "INF"}
+	forms := []string{"-%s", "- %s", "-(%s)", "%s", "1 - -%s", "-%s + 1", "%s * 2", "2 * -%s", "-%s = -2", "--%s", "-%s/text()", "number(%s)", "-%s[1]", "+%s", "-child::%s", "sum(%s) - %s", "- -%s", "-%s div 2"}
+	var out []string
+	for _, n := range names {
+		for _, f := range forms {
+			out = append(out, strings.ReplaceAll(f, "%s", n))
+		}
+	}
+	return append(out, "-.5", "- .5", "-1e1", "1e1", "0x10", "1_0", "-0x10", "1.5.5", "1..5", ".5.", "-5", "- 5", "-  5.50", "+5", "1 - - 1", "1--1", "1 -1", "inf-1", "inf -1", "inf - 1")
+}
+
 // GenSyntaxFamily: C08 — the lexer and the parser against the model's lexer and parser on strings.
 func GenSyntaxFamily(w *Writer, r *Rng, t Tier) error {
+	{
+		c, err := xsel.ReadXml(strings.NewReader("<r xmlns:p='urn:p'><a><b/><b>1</b></a><ancestor.or-self/><preceding_sibling p:x='1'/></r>"))
+		if err != nil {
+			return err
+		}
+		d := &Doc{Id: "kwdoc", Dump: DumpTree(c)}
+		w.Line("doc "+d.Id+" "+d.Dump.Sexp(), "wf=1", map[string]interface{}{"k": "doc", "doc": d.Id, "nodes": len(d.Dump.Cursors)})
+		env := Env{Ns: []NsBind{{"p", "urn:p"}}}
+		for _, s := range keywordMisspellings() {
+			w.Syn("syn-keyword-misspellings", s, nil)
+			w.EvalX("syn-keyword-misspellings-eval", d, env, 3, s)
+		}
+		c2, err := xsel.ReadXml(strings.NewReader("<r><inf>2</inf><Infinity>3</Infinity><infinity>9</infinity><nan>4</nan><NaN>5</NaN><e1>6</e1><true>7</true><x0>8</x0><INF>10</INF></r>"))
+		if err != nil {
+			return err
+		}
+		d2 := &Doc{Id: "lookdoc", Dump: DumpTree(c2)}
+		w.Line("doc "+d2.Id+" "+d2.Dump.Sexp(), "wf=1", map[string]interface{}{"k": "doc", "doc": d2.Id, "nodes": len(d2.Dump.Cursors)})
+		for _, s := range lookalikes() {
+			w.Syn("syn-lookalikes", s, nil)
+			w.EvalX("syn-lookalikes-eval", d2, Env{}, 1, s)
+		}
+	}
 	for di := 0; di < t.Docs; di++ {
 		dr := r.Fork()
 		cfg := DefaultDocCfg()
